@@ -497,8 +497,7 @@ def run(tier):
                                "bonded_neighbours_histogram": {str(k): v for k, v in sorted(stats["neigh"].items())},
                                "placements_with_built_neighbours": stats["built_neigh"], "molecule_traces_from_-c_-res_runs": stats["stage2"],
                                "rotate_xyz_samples": len(rots)}
-    if stats["place"] == 0 or stats["chiral"] == 0 or stats["skip"] == 0 or stats["built_neigh"] == 0:
-        raise c.MachineryError("vacuous I->S drivers: %s" % stats)
+    vacuous = stats["place"] == 0 or stats["chiral"] == 0 or stats["skip"] == 0 or stats["built_neigh"] == 0
     tsample = next((t for t in traces if len(t["events"]) > 2), traces[0])
     ck.sample({"I->S trace": {"nodes": tsample["nodes"], "events": tsample["events"][:3], "monitor raw": tsample["raw"][:2]}})
     for tid, matched in sorted(rejected.items()):
@@ -512,6 +511,9 @@ def run(tier):
     for i in badrot:
         r = rots[i - 1]
         ck.violation({"kind": "rotate_xyz", "sample": r}, what="rotate_xyz(I, %s) is not the proper rotation of the specification: %s" % (r["angles"], json.dumps(r["raw"])[:300]))
+
+    if vacuous and not ck.violations:       # (misbehaving code can empty a class of events: then the violations speak)
+        raise c.MachineryError("vacuous I->S drivers: %s" % stats)
 
     ck.stage("binding demonstration")
     okt = [t for i, t in enumerate(traces, 1) if i not in rejected and any(e["op"] == "place" for e in t["events"])][:3]
